@@ -99,127 +99,12 @@ func c11(c *Ctx) {
 	r.Rule("R-C11.4", "no crash: every panic site reachable from DecryptMessage is discharged; the unchecked Ciphertext[:12] of aead.Wrapper.Decrypt is a length precondition that decryptWithKey checks before the call")
 	r.NotDecided = append(r.NotDecided, "round-trip equality of messages", "AEAD authenticity", "X25519 commutativity")
 
-	encF := c.need("R-C11.1", "", "EncryptMessage")
-	decK := c.need("R-C11.1", "", "decryptWithKey")
-	decM := c.need("R-C11.2", "", "DecryptMessage")
-	if encF == nil || decK == nil || decM == nil {
+	da := c11Decrypt(c)
+	if da == nil {
 		return
 	}
-	ea, why := extractAead(encF, "Encrypt")
-	da, why2 := extractAead(decK, "Decrypt")
-	if ea == nil || da == nil {
-		r.Unk("R-C11.1", "AEAD parameter tables", p.Pos(encF.Pos()), "cannot extract: "+why+" / "+why2)
-		return
-	}
-	// encrypt side: pair from one X25519EncryptionKey invoke on the key source
-	pc, i0 := core.CallResult(ea.keyId)
-	pc2, i1 := core.CallResult(ea.key)
-	okPair := pc != nil && pc == pc2 && i0 == 0 && i1 == 1 && pc.Common().IsInvoke() && pc.Common().Method.Name() == "X25519EncryptionKey"
-	r.Check(okPair, "R-C11.1", "nodeenrollment.EncryptMessage key pair", p.Pos(encF.Pos()), "(key ID, shared key) = keySource.X25519EncryptionKey()", "key ID and shared key do not come from one X25519EncryptionKey() call on the key source")
-	aadRow := func(a *aeadParams) string {
-		switch {
-		case a.aadVal == nil:
-			return "none"
-		case a.aadVal != a.keyId:
-			return "other:" + core.ValueName(a.aadVal)
-		case a.aadAlways:
-			return "keyId always"
-		case a.aadGuarded:
-			return "keyId iff non-empty"
-		}
-		return "keyId under an unrecognised condition"
-	}
-	er, dr := aadRow(ea), aadRow(da)
-	r.Check(er == dr && strings.HasPrefix(er, "keyId"), "R-C11.1", "AAD row encrypt vs decrypt", p.Pos(encF.Pos()), "both sides: AAD = "+er, "encrypt side AAD: "+er+"; decrypt side AAD: "+dr+" (messages are not bound to the key ID the same way on both sides)")
-	// decrypt side: parameters
-	kidP, okp := da.keyId.(*ssa.Parameter)
-	keyP, okp2 := da.key.(*ssa.Parameter)
-	if !okp || !okp2 {
-		r.Bad("R-C11.1", "nodeenrollment.decryptWithKey parameters", p.Pos(decK.Pos()), "the wrapper is not configured from the function's key-ID and key parameters")
-		return
-	}
-	idxOf := func(pr *ssa.Parameter) int {
-		for i, q := range decK.Params {
-			if q == pr {
-				return i
-			}
-		}
-		return -1
-	}
-	ki, kk := idxOf(kidP), idxOf(keyP)
-	calls := callsTo(decM, decK)
-	if len(calls) == 0 {
-		r.Unk("R-C11.2", "nodeenrollment.DecryptMessage attempts", p.Pos(decM.Pos()), "no decryptWithKey call")
-		return
-	}
-	keySrc := paramRoot(decM.Params[2])
-	nCur, nPrev := 0, 0
-	var oks []core.Guard
-	for i, cc := range calls {
-		cc := cc
-		a, ai := core.CallResult(core.Strip(cc.Call.Args[ki]))
-		b, bi := core.CallResult(core.Strip(cc.Call.Args[kk]))
-		okc := a != nil && a == b && ai == 0 && bi == 1 && a.Common().IsInvoke() && core.Strip(a.Common().Value) == core.Strip(keySrc)
-		meth := "?"
-		if a != nil && a.Common().IsInvoke() {
-			meth = a.Common().Method.Name()
-		}
-		r.Check(okc && (meth == "X25519EncryptionKey" || meth == "PreviousX25519EncryptionKey"), "R-C11.1", fmt.Sprintf("nodeenrollment.DecryptMessage attempt#%d key pair", i), p.Pos(cc.Pos()),
-			"(key ID, key) = keySource."+meth+"()", "the key ID and the key of a decrypt attempt do not come from one producer call on the key source (a message is accepted under a key ID the receiver did not derive for that key)")
-		if meth == "X25519EncryptionKey" {
-			nCur++
-		} else if meth == "PreviousX25519EncryptionKey" {
-			nPrev++
-		}
-		ct := core.Strip(cc.Call.Args[2])
-		r.Check(ct == ssa.Value(decM.Params[1]), "R-C11.2", fmt.Sprintf("nodeenrollment.DecryptMessage attempt#%d ciphertext", i), p.Pos(cc.Pos()), "the ciphertext parameter", "an attempt decrypts something other than the given ciphertext")
-		gOK := core.ErrNil(fmt.Sprintf("attempt#%d", i), func(x *ssa.Call) bool { return x == cc })
-		oks = append(oks, gOK)
-		// after a successful attempt only success returns are reachable
-		if okT, succ, _, _ := errTestEdges(cc); okT {
-			bad := ""
-			for x := range reachFrom(succ, nil) {
-				if ret, ok := x.Instrs[len(x.Instrs)-1].(*ssa.Return); ok && core.ReturnErrKind(ret, 0) == core.ErrNonNil {
-					bad = p.Pos(ret.Pos())
-				}
-				for _, in := range x.Instrs {
-					if c2, ok := in.(*ssa.Call); ok && c2 != cc && c2.Common().StaticCallee() == decK {
-						bad = "another attempt at " + p.Pos(c2.Pos())
-					}
-				}
-			}
-			r.Check(bad == "", "R-C11.2", fmt.Sprintf("nodeenrollment.DecryptMessage attempt#%d success is final", i), p.Pos(cc.Pos()), "a successful attempt leads only to the success return", "after a successful attempt the function can still fail or overwrite the result: "+bad)
-		} else {
-			r.Bad("R-C11.2", fmt.Sprintf("nodeenrollment.DecryptMessage attempt#%d success is final", i), p.Pos(cc.Pos()), "the error of a decrypt attempt is not tested")
-		}
-	}
-	r.Check(nCur >= 1 && nPrev >= 1, "R-C11.2", "nodeenrollment.DecryptMessage tries current and previous key", p.Pos(decM.Pos()), fmt.Sprintf("%d current-key and %d previous-key attempts", nCur, nPrev), "the current key or the recorded previous key is never tried")
-	gAny := core.AnyOf("one attempt succeeded", oks...)
-	for i, ret := range core.SuccessReturns(decM) {
-		res := core.CutReach(p, decM, gAny, ret.Block())
-		r.CutOb(p, "R-C11.2", fmt.Sprintf("nodeenrollment.DecryptMessage success-return#%d", i), p.Pos(ret.Pos()), res, gAny)
-	}
-	// result written only after Decrypt success
-	resultP := ssa.Value(decK.Params[len(decK.Params)-1])
-	gDec := core.ErrNil("aead Decrypt", func(x *ssa.Call) bool { return x == da.op })
-	nU := 0
-	for _, u := range callsNamed(decK, "google.golang.org/protobuf/proto.Unmarshal") {
-		if core.Strip(u.Call.Args[1]) != resultP {
-			continue
-		}
-		nU++
-		res := core.CutReach(p, decK, gDec, u.Block())
-		r.CutOb(p, "R-C11.2", "nodeenrollment.decryptWithKey result written after Decrypt success", p.Pos(u.Pos()), res, gDec)
-		r.Check(core.Strip(u.Call.Args[0]) == extractOf(da.op, 0), "R-C11.2", "nodeenrollment.decryptWithKey result is the decrypted plaintext", p.Pos(u.Pos()), "Unmarshal(plaintext, result)", "the result is not unmarshalled from the decrypted plaintext")
-	}
-	if nU == 0 {
-		r.Unk("R-C11.2", "nodeenrollment.decryptWithKey result", p.Pos(decK.Pos()), "result is never unmarshalled")
-	}
-	for i, ret := range core.SuccessReturns(decK) {
-		res := core.CutReach(p, decK, gDec, ret.Block())
-		r.CutOb(p, "R-C11.2", fmt.Sprintf("nodeenrollment.decryptWithKey success-return#%d", i), p.Pos(ret.Pos()), res, gDec)
-	}
-
+	decK := c.P.Func("", "decryptWithKey")
+	decM := c.P.Func("", "DecryptMessage")
 	c11Siblings(c)
 
 	// R-C11.4
@@ -413,4 +298,133 @@ func c11Siblings(c *Ctx) {
 			r.CutOb(p, "R-C11.3", fmt.Sprintf("types.X25519EncryptionKey key type check param#%d", i), p.Pos(ecdh.Pos()), res, g)
 		}
 	}
+}
+
+// c11Decrypt evaluates R-C11.1 and R-C11.2 (parameter agreement and attempt
+// discipline of message decryption); shared with C10. Returns the decrypt
+// side's AEAD parameters.
+func c11Decrypt(c *Ctx) *aeadParams {
+	p, r := c.P, c.R
+	encF := c.need("R-C11.1", "", "EncryptMessage")
+	decK := c.need("R-C11.1", "", "decryptWithKey")
+	decM := c.need("R-C11.2", "", "DecryptMessage")
+	if encF == nil || decK == nil || decM == nil {
+		return nil
+	}
+	ea, why := extractAead(encF, "Encrypt")
+	da, why2 := extractAead(decK, "Decrypt")
+	if ea == nil || da == nil {
+		r.Unk("R-C11.1", "AEAD parameter tables", p.Pos(encF.Pos()), "cannot extract: "+why+" / "+why2)
+		return nil
+	}
+	// encrypt side: pair from one X25519EncryptionKey invoke on the key source
+	pc, i0 := core.CallResult(ea.keyId)
+	pc2, i1 := core.CallResult(ea.key)
+	okPair := pc != nil && pc == pc2 && i0 == 0 && i1 == 1 && pc.Common().IsInvoke() && pc.Common().Method.Name() == "X25519EncryptionKey"
+	r.Check(okPair, "R-C11.1", "nodeenrollment.EncryptMessage key pair", p.Pos(encF.Pos()), "(key ID, shared key) = keySource.X25519EncryptionKey()", "key ID and shared key do not come from one X25519EncryptionKey() call on the key source")
+	aadRow := func(a *aeadParams) string {
+		switch {
+		case a.aadVal == nil:
+			return "none"
+		case a.aadVal != a.keyId:
+			return "other:" + core.ValueName(a.aadVal)
+		case a.aadAlways:
+			return "keyId always"
+		case a.aadGuarded:
+			return "keyId iff non-empty"
+		}
+		return "keyId under an unrecognised condition"
+	}
+	er, dr := aadRow(ea), aadRow(da)
+	r.Check(er == dr && strings.HasPrefix(er, "keyId"), "R-C11.1", "AAD row encrypt vs decrypt", p.Pos(encF.Pos()), "both sides: AAD = "+er, "encrypt side AAD: "+er+"; decrypt side AAD: "+dr+" (messages are not bound to the key ID the same way on both sides)")
+	// decrypt side: parameters
+	kidP, okp := da.keyId.(*ssa.Parameter)
+	keyP, okp2 := da.key.(*ssa.Parameter)
+	if !okp || !okp2 {
+		r.Bad("R-C11.1", "nodeenrollment.decryptWithKey parameters", p.Pos(decK.Pos()), "the wrapper is not configured from the function's key-ID and key parameters")
+		return nil
+	}
+	idxOf := func(pr *ssa.Parameter) int {
+		for i, q := range decK.Params {
+			if q == pr {
+				return i
+			}
+		}
+		return -1
+	}
+	ki, kk := idxOf(kidP), idxOf(keyP)
+	calls := callsTo(decM, decK)
+	if len(calls) == 0 {
+		r.Unk("R-C11.2", "nodeenrollment.DecryptMessage attempts", p.Pos(decM.Pos()), "no decryptWithKey call")
+		return nil
+	}
+	keySrc := paramRoot(decM.Params[2])
+	nCur, nPrev := 0, 0
+	var oks []core.Guard
+	for i, cc := range calls {
+		cc := cc
+		a, ai := core.CallResult(core.Strip(cc.Call.Args[ki]))
+		b, bi := core.CallResult(core.Strip(cc.Call.Args[kk]))
+		okc := a != nil && a == b && ai == 0 && bi == 1 && a.Common().IsInvoke() && core.Strip(a.Common().Value) == core.Strip(keySrc)
+		meth := "?"
+		if a != nil && a.Common().IsInvoke() {
+			meth = a.Common().Method.Name()
+		}
+		r.Check(okc && (meth == "X25519EncryptionKey" || meth == "PreviousX25519EncryptionKey"), "R-C11.1", fmt.Sprintf("nodeenrollment.DecryptMessage attempt#%d key pair", i), p.Pos(cc.Pos()),
+			"(key ID, key) = keySource."+meth+"()", "the key ID and the key of a decrypt attempt do not come from one producer call on the key source (a message is accepted under a key ID the receiver did not derive for that key)")
+		if meth == "X25519EncryptionKey" {
+			nCur++
+		} else if meth == "PreviousX25519EncryptionKey" {
+			nPrev++
+		}
+		ct := core.Strip(cc.Call.Args[2])
+		r.Check(ct == ssa.Value(decM.Params[1]), "R-C11.2", fmt.Sprintf("nodeenrollment.DecryptMessage attempt#%d ciphertext", i), p.Pos(cc.Pos()), "the ciphertext parameter", "an attempt decrypts something other than the given ciphertext")
+		gOK := core.ErrNil(fmt.Sprintf("attempt#%d", i), func(x *ssa.Call) bool { return x == cc })
+		oks = append(oks, gOK)
+		// after a successful attempt only success returns are reachable
+		if okT, succ, _, _ := errTestEdges(cc); okT {
+			bad := ""
+			for x := range reachFrom(succ, nil) {
+				if ret, ok := x.Instrs[len(x.Instrs)-1].(*ssa.Return); ok && core.ReturnErrKind(ret, 0) == core.ErrNonNil {
+					bad = p.Pos(ret.Pos())
+				}
+				for _, in := range x.Instrs {
+					if c2, ok := in.(*ssa.Call); ok && c2 != cc && c2.Common().StaticCallee() == decK {
+						bad = "another attempt at " + p.Pos(c2.Pos())
+					}
+				}
+			}
+			r.Check(bad == "", "R-C11.2", fmt.Sprintf("nodeenrollment.DecryptMessage attempt#%d success is final", i), p.Pos(cc.Pos()), "a successful attempt leads only to the success return", "after a successful attempt the function can still fail or overwrite the result: "+bad)
+		} else {
+			r.Bad("R-C11.2", fmt.Sprintf("nodeenrollment.DecryptMessage attempt#%d success is final", i), p.Pos(cc.Pos()), "the error of a decrypt attempt is not tested")
+		}
+	}
+	r.Check(nCur >= 1 && nPrev >= 1, "R-C11.2", "nodeenrollment.DecryptMessage tries current and previous key", p.Pos(decM.Pos()), fmt.Sprintf("%d current-key and %d previous-key attempts", nCur, nPrev), "the current key or the recorded previous key is never tried")
+	gAny := core.AnyOf("one attempt succeeded", oks...)
+	for i, ret := range core.SuccessReturns(decM) {
+		res := core.CutReach(p, decM, gAny, ret.Block())
+		r.CutOb(p, "R-C11.2", fmt.Sprintf("nodeenrollment.DecryptMessage success-return#%d", i), p.Pos(ret.Pos()), res, gAny)
+	}
+	// result written only after Decrypt success
+	resultP := ssa.Value(decK.Params[len(decK.Params)-1])
+	gDec := core.ErrNil("aead Decrypt", func(x *ssa.Call) bool { return x == da.op })
+	nU := 0
+	for _, u := range callsNamed(decK, "google.golang.org/protobuf/proto.Unmarshal") {
+		if core.Strip(u.Call.Args[1]) != resultP {
+			continue
+		}
+		nU++
+		res := core.CutReach(p, decK, gDec, u.Block())
+		r.CutOb(p, "R-C11.2", "nodeenrollment.decryptWithKey result written after Decrypt success", p.Pos(u.Pos()), res, gDec)
+		r.Check(core.Strip(u.Call.Args[0]) == extractOf(da.op, 0), "R-C11.2", "nodeenrollment.decryptWithKey result is the decrypted plaintext", p.Pos(u.Pos()), "Unmarshal(plaintext, result)", "the result is not unmarshalled from the decrypted plaintext")
+	}
+	if nU == 0 {
+		r.Unk("R-C11.2", "nodeenrollment.decryptWithKey result", p.Pos(decK.Pos()), "result is never unmarshalled")
+	}
+	for i, ret := range core.SuccessReturns(decK) {
+		res := core.CutReach(p, decK, gDec, ret.Block())
+		r.CutOb(p, "R-C11.2", fmt.Sprintf("nodeenrollment.decryptWithKey success-return#%d", i), p.Pos(ret.Pos()), res, gDec)
+	}
+
+	return da
 }
